@@ -294,7 +294,8 @@ def run(chk) -> None:
         chk.ob("C06.R2", "the release loop stops only on an empty heap or a first entry that is not due yet", not extra, m=mr, node=lp, fn=pop, instance="pop:all-due", reason=f"further loop conditions {sorted(set(extra))}")
     _, st = repo.func(f"{RUNNER}.schedule_tick")
     push = [c for c in ast.walk(st) if isinstance(c, ast.Call) and last(call_name(c)) == "heappush"]
-    ok = bool(push) and isinstance(push[0].args[1], ast.Tuple) and ast.unparse(push[0].args[1].elts[0]) == param(st, 2)
+    entry = expand(push[0].args[1], push[0], depth=2) if push and len(push[0].args) > 1 else None       # the entry tuple, possibly bound to a local first
+    ok = isinstance(entry, ast.Tuple) and bool(entry.elts) and ast.unparse(expand(entry.elts[0], push[0], depth=2)) == param(st, 2)
     chk.ob("C06.R2", "the heap is keyed by the requested wake-up time", ok, m=mr, node=push[0] if push else st, fn=st, instance="heap:key", reason="first tuple element is not at_time")
 
 
